@@ -22,7 +22,7 @@ Theorem C07_als_sweep_count : forall T (K : ops T) solve acc accv cb Sm (Y0 : li
 Proof. exact @als_spec. Qed.
 
 (* info['stop'] is justified: 'nswp' => nswp <= executed sweeps; 'e' => 0 <= info['e'] <= e; 'e_vld' => the validation
-   error after the last sweep or before the first one is in [0, e_vld]; 'cb' => the callback returned True after
+   error after the last sweep or before the first one is in [0, e_vld]; 'cb' => the callback returned a true value after
    the last sweep.  (-1 >= 0 is false: the carrier orders -1 below 0.) *)
 Theorem C07_als_stop_reason : forall T (K : ops T) solve acc accv cb, oleb K (o0 K) (oopp K (o1 K)) = false ->
   forall Sm (Y0 : list (core T)) nswp e evld lamb skip fuel Y inf,
@@ -38,7 +38,8 @@ Theorem C07_als_nswp : forall T (K : ops T) solve acc accv cb Sm (Y0 : list (cor
                       mk_info (Nat.max 1 n) SNswp ec ev).
 Proof. exact @als_nswp. Qed.
 
-(* a callback returning True after sweep t stops the run right after that sweep at the latest, whatever the options *)
+(* a callback returning a true value after sweep t ([c t Y] is the truthiness of its answer) stops the run right after
+   that sweep at the latest, whatever the options *)
 Theorem C07_als_cb_stops : forall T (K : ops T) solve acc accv cb c Sm (Y0 : list (core T)) nswp e evld lamb skip fuel t,
   cb = Some c -> negb skip && negb (check_slices Sm Y0) = false -> idx_ok Sm Y0 = true -> 1 <= t -> t <= fuel ->
   c t (sY (Nat.iter t (sweep K solve lamb Sm) (init_st K Sm Y0))) = true ->
